@@ -95,3 +95,63 @@ def laid_out_paragraphs(page_boxes):
             if isinstance(box, boxes.BlockBox) and box.element_tag == 'p':
                 out.append((box, [c for c in box.children if isinstance(c, boxes.LineBox)]))
     return out
+
+
+def _px(value):
+    from fractions import Fraction
+    return Fraction(getattr(value, 'value', value))
+
+
+def node_wire(box, enc):
+    """A text box / inline box of the tree before layout as the model's `Node`:
+    (t text) | (b left-spacing right-spacing has-decoration (children))."""
+    from weasyprint.formatting_structure import boxes
+    if isinstance(box, boxes.TextBox):
+        return ['t', enc(box.text)]
+    if not isinstance(box, boxes.InlineBox):
+        raise ValueError(f'unexpected {type(box).__name__} in a line')
+    style = box.style
+    left = _px(style['margin_left']) + _px(style['border_left_width']) + _px(style['padding_left'])
+    right = _px(style['margin_right']) + _px(style['border_right_width']) + _px(style['padding_right'])
+    deco = any(
+        _px(style[f'margin_{side}']) or _px(style[f'border_{side}_width']) or _px(style[f'padding_{side}'])
+        for side in ('top', 'right', 'bottom', 'left'))
+    return ['b', left, right, bool(deco), [node_wire(child, enc) for child in box.children]]
+
+
+def frag_wire(box, enc, snap):
+    """A laid-out text box / inline box as the model's `Frag`: (t text x w) | (b x w left right (children))."""
+    from weasyprint.formatting_structure import boxes
+    if isinstance(box, boxes.TextBox):
+        return ['t', enc(box.text), snap(box.position_x), snap(box.width)]
+    left = box.margin_left + box.border_left_width + box.padding_left
+    right = box.margin_right + box.border_right_width + box.padding_right
+    return ['b', snap(box.position_x), snap(box.width), snap(left), snap(right),
+            [frag_wire(child, enc, snap) for child in box.children]]
+
+
+def pipeline_trees(html_string, enc):
+    """Like `pipeline`, but per `<p>`: the children of its line box before layout as model nodes."""
+    from weasyprint import DEFAULT_OPTIONS
+    from weasyprint.css.counters import CounterStyle
+    from weasyprint.document import Document
+    from weasyprint.formatting_structure import boxes
+    from weasyprint.formatting_structure.build import build_formatting_structure
+    from weasyprint.layout import layout_document
+    html = docs.html(html_string)
+    _, _, font_config = docs._env()
+    counter_style = CounterStyle()
+    context = Document._build_layout_context(html, font_config, counter_style, DEFAULT_OPTIONS.copy())
+    root_box = build_formatting_structure(
+        html.etree_element, context.style_for, context.get_image_from_uri, html.base_url,
+        context.target_collector, counter_style, context.footnotes)
+    before = []
+    for box in root_box.descendants():
+        if isinstance(box, boxes.BlockBox) and box.element_tag == 'p':
+            lines = [c for c in box.children if isinstance(c, boxes.LineBox)]
+            if len(lines) != 1 or len(box.children) != 1:
+                before.append(None)
+            else:
+                before.append([node_wire(c, enc) for c in lines[0].children])
+    page_boxes = list(layout_document(html, root_box, context))
+    return before, page_boxes
